@@ -205,7 +205,7 @@ pub fn generate(thorough: bool, seed: u64, out: &mut dyn Write) {
             }
         };
         let mut blocks = Vec::new();
-        let n_pairs = if thorough { 48 } else { 6 };
+        let n_pairs = if thorough { 96 } else { 12 };
         for k in 0..n_pairs {
             let hi = rng.range(1, 0xFFFF) as u16;
             let lo = rng.below(hi as u64) as u16;
@@ -253,7 +253,7 @@ pub fn generate(thorough: bool, seed: u64, out: &mut dyn Write) {
         let mut b5 = Vec::new();
         for a0 in 0..256u32 {
             for a1 in 0..256u32 {
-                if !thorough && !(a0 == a1 || a0 == a1 + 1 || a0 + 1 == a1 || rng.chance(1, 48)) {
+                if !thorough && !(a0 == a1 || a0 == a1 + 1 || a0 + 1 == a1 || rng.chance(1, 12)) {
                     continue;
                 }
                 let mut al = vec![a0 as u8, a1 as u8];
@@ -274,9 +274,29 @@ pub fn generate(thorough: bool, seed: u64, out: &mut dyn Write) {
         strip(&b5, BC5, out);
     }
 
-    // ---- (3) random textures from the property's quantifier
-    let n = if thorough { 12_000 } else { 260 };
+    // ---- (3) random textures from the property's quantifier, with (4) a few large ones
+    // interleaved (thorough: up to 512 x 512 and 512 x 128 x 8)
+    let big: &[(usize, usize, usize)] = if thorough {
+        &[(512, 512, 1), (511, 509, 1), (512, 128, 8), (257, 255, 1), (130, 64, 8), (509, 3, 1), (3, 509, 1),
+          (512, 4, 8), (100, 100, 1), (64, 64, 8), (255, 257, 1), (16, 512, 1)]
+    } else {
+        &[(130, 127, 1), (64, 32, 4), (257, 5, 1), (6, 255, 1)]
+    };
+    let mut bigs: Vec<(u32, usize, usize, usize)> = Vec::new();
+    for &(w, h, d) in big {
+        for &fmt in &FORMATS {
+            bigs.push((fmt, w, h, d));
+        }
+    }
+    let n = if thorough { 40_000 } else { 5_000 };
+    let every = n / bigs.len().max(1);
     for i in 0..n {
+        if i % every == 0 {
+            if let Some((fmt, w, h, d)) = bigs.pop() {
+                let p = payload(fmt, w, h, d, &mut rng, false);
+                emit(out, attr(&mut rng), fmt, w, h, d, 1, &std_offs, &p);
+            }
+        }
         let fmt = *rng.pick(&FORMATS);
         let (w, h, d) = match rng.below(12) {
             // 3-D: depth 2..8, height a multiple of 4
@@ -296,19 +316,6 @@ pub fn generate(thorough: bool, seed: u64, out: &mut dyn Write) {
         let offs = offsets(&mut rng);
         let mips = match rng.below(3) { 0 => 1, 1 => rng.range(0, 12) as u16, _ => rng.next() as u16 };
         emit(out, attr(&mut rng), fmt, w, h, d, mips, &offs, &p);
-    }
-
-    // ---- (4) a few large ones (thorough: up to 512 x 512 and 512 x 128 x 8)
-    let big: &[(usize, usize, usize)] = if thorough {
-        &[(512, 512, 1), (511, 509, 1), (512, 128, 8), (257, 255, 1), (130, 64, 8), (509, 3, 1), (3, 509, 1)]
-    } else {
-        &[(130, 127, 1), (64, 32, 4)]
-    };
-    for &(w, h, d) in big {
-        for &fmt in &FORMATS {
-            let p = payload(fmt, w, h, d, &mut rng, false);
-            emit(out, attr(&mut rng), fmt, w, h, d, 1, &std_offs, &p);
-        }
     }
 
     // ---- (5) degenerate sizes (no pixels): tagged trivial by the driver
